@@ -1,0 +1,59 @@
+//go:build verif
+
+// Verification hook for property C05 (placement). Add-only; compiled only with -tags verif.
+package task
+
+import (
+	"github.com/AliceO2Group/Control/common/utils/uid"
+	"github.com/AliceO2Group/Control/core/task/channel"
+)
+
+// VerifC05Deployed describes one task the OFFERS handler decided to launch.
+type VerifC05Deployed struct {
+	TaskId   string
+	RolePath string
+	BindMap  channel.BindMap
+}
+
+// VerifC05Outcome is the verdict resourceOffers hands back for one deployment request.
+type VerifC05Outcome struct {
+	Deployed     []VerifC05Deployed
+	Undeployed   []string // role paths, in the order of descriptorsStillToDeploy
+	Undeployable []string // role paths, in the order of descriptorsUndeployable
+}
+
+// VerifC05OffersRound performs one deployment attempt exactly as the body of the attempts loop of
+// acquireTasks does (post the request on tasksToDeploy, trigger REVIVE, wait for the verdict of
+// the OFFERS handler), with one difference: the outcome channel has room for one element, so the
+// handler's non-blocking send cannot be lost when the offers arrive before the caller is
+// receiving (the simulated master answers REVIVE within microseconds). Nothing is written to the
+// roster and no role is updated; the handler itself runs unchanged.
+func (m *Manager) VerifC05OffersRound(envId uid.ID, descriptors Descriptors) (out VerifC05Outcome) {
+	m.deployMu.Lock()
+	defer m.deployMu.Unlock()
+
+	outcomeCh := make(chan ResourceOffersOutcome, 1)
+	m.tasksToDeploy <- &ResourceOffersDeploymentRequest{
+		tasksToDeploy: descriptors,
+		envId:         envId,
+		outcomeCh:     outcomeCh,
+	}
+	m.reviveOffersTrg <- struct{}{}
+	<-m.reviveOffersTrg
+	ro := <-outcomeCh
+
+	for t, d := range ro.deployed {
+		bm := make(channel.BindMap)
+		for k, v := range t.GetLocalBindMap() {
+			bm[k] = v
+		}
+		out.Deployed = append(out.Deployed, VerifC05Deployed{TaskId: t.GetTaskId(), RolePath: d.TaskRole.GetPath(), BindMap: bm})
+	}
+	for _, d := range ro.undeployed {
+		out.Undeployed = append(out.Undeployed, d.TaskRole.GetPath())
+	}
+	for _, d := range ro.undeployable {
+		out.Undeployable = append(out.Undeployable, d.TaskRole.GetPath())
+	}
+	return
+}
